@@ -374,3 +374,19 @@ func nonNilEdgesRaw(f *ssa.Function, v ssa.Value) []ifEdge {
 	}
 	return out
 }
+
+// nonNilAt: v is non-nil whenever `at` executes: by construction (knownNonNil) or because `at` lies below an edge on which
+// a comparison with nil decided it.
+func (c *Ctx) nonNilAt(f *ssa.Function, v ssa.Value, at ssa.Instruction) bool {
+	if c.knownNonNil(v, map[ssa.Value]bool{}) {
+		return true
+	}
+	for _, cand := range []ssa.Value{v, c.Resolve(v)} {
+		for _, e := range nonNilEdgesRaw(f, cand) {
+			if DominatedByEdge(f, at, e.B, e.K, PathQ{}) {
+				return true
+			}
+		}
+	}
+	return false
+}
